@@ -135,11 +135,11 @@ func runEvent(in ssa.Instruction, st *an.State) string {
 			job := cc.Args[len(cc.Args)-1]
 			return "exec(" + jobKind(job, st) + ")"
 		case fnWgAdd:
-			if an.FieldKey(cc.Args[0]) == "TaskRunner.running" {
+			if an.FieldKey(cc.Args[0]) == resolveRunnerState(an.CurrentProg).running {
 				return "register"
 			}
 		case fnWgDone:
-			if an.FieldKey(cc.Args[0]) == "TaskRunner.running" {
+			if an.FieldKey(cc.Args[0]) == resolveRunnerState(an.CurrentProg).running {
 				return "unregister"
 			}
 		case "(*sync.Map).Store":
@@ -151,7 +151,7 @@ func runEvent(in ssa.Instruction, st *an.State) string {
 				return "store"
 			}
 		}
-		if cc.IsInvoke() && cc.Method.Name() == "Err" && an.FieldProv(cc.Value) == "TaskRunner.ctx" {
+		if cc.IsInvoke() && cc.Method.Name() == "Err" && an.FieldProv(cc.Value) == resolveRunnerState(an.CurrentProg).ctx {
 			return "gate"
 		}
 	}
